@@ -39,13 +39,21 @@ type loopFn struct {
 	inLoops bool     // Gen/Loops has a definition (fresh or fallback)
 	vars    []string // Section variables of Gen/Loops the definition depends on, in section order
 	prev    bool     // parse pass: the function is the one Gen/Loops defines
+	// core.go
+	from    *loopPkg // the earlier pass that defines the function (prev)
+	post    bool     // the function instantiates a generic function: it lives in Section Instances
+	records []string // local struct types: the Record items emitted before the definition
+	lits    int      // numbering of the oracles for error texts
 }
 
 type loopExtern struct {
-	name string
-	typ  string
-	hdr  string
-	ord  int
+	name   string
+	typ    string
+	hdr    string
+	ord    int
+	bundle bool // core.go: part of the method bundle of a generic function (type parameter, method, zero value)
+	owner  string // core.go: the type parameter or abstract receiver the bundle variable belongs to (V, VR, E)
+	suffix string // core.go: "" for the type itself, else the method name / "zero"
 }
 
 type loopPkg struct {
@@ -59,6 +67,11 @@ type loopPkg struct {
 	before *loopPkg               // parse pass: the Gen/Loops pass of the same package
 	consts map[string]*loopExtern // generated constants (regexp group counts, map tables)
 	snap   map[string]*snapItem   // the snapshot of the file being written (nil: none)
+	// core.go
+	core        bool                   // the pass that writes Gen/Parse/<Pkg>Core.v
+	inPost      bool                   // the function being translated lives in Section Instances
+	postExterns map[string]*loopExtern // the Section variables of Section Instances
+	postMemo    map[*loopFn]int
 }
 
 type pre struct{ pat, rhs string }
@@ -83,6 +96,11 @@ type loopTr struct {
 	// variables whose Go value is not modelled on the current path
 	nilState map[types.Object]int
 	poison   map[types.Object]bool
+	// core.go
+	optPtr   map[types.Object]bool   // pointer variables that may be nil: option
+	abstract map[types.Object]string // abstract receivers (dropped interface parameters, values of foreign types): prefix of their method variables
+	funVals  map[types.Object]bool   // local variables that hold a function value
+	nilTypes map[*ast.Ident]types.Type
 }
 
 // ---------- effects ----------
@@ -97,6 +115,10 @@ func (t *loopTr) effectful(e ast.Node) bool {
 		switch x := n.(type) {
 		case *ast.FuncLit:
 			return false
+		case *ast.SelectorExpr, *ast.StarExpr:
+			if t.lp.core && t.coreEffectful(x) {
+				found = true
+			}
 		case *ast.IndexExpr:
 			ty := t.cp.info.TypeOf(x.X)
 			if ty != nil {
@@ -127,6 +149,9 @@ func (t *loopTr) effectful(e ast.Node) bool {
 						found = true
 					}
 				}
+			}
+			if t.lp.core && t.coreEffectful(x) {
+				found = true
 			}
 		case *ast.ForStmt, *ast.RangeStmt:
 			found = true
@@ -204,6 +229,11 @@ func (t *loopTr) hoist(e ast.Expr) (ast.Expr, []pre, error) {
 		return nil, nil, err
 	}
 	info := t.cp.info
+	if t.lp.core {
+		if h, ps, ok, err := t.coreHoist(e); ok || err != nil {
+			return h, ps, err
+		}
+	}
 	switch x := e.(type) {
 	case *ast.ParenExpr:
 		return t.hoist(x.X)
@@ -450,6 +480,14 @@ func (t *loopTr) hoist(e ast.Expr) (ast.Expr, []pre, error) {
 				if callee.prev {
 					as = append(as, t.prevVars(callee)...)
 				}
+				if t.lp.core {
+					vs, kept, err := t.coreCallVars(callee, x, nx.Args)
+					if err != nil {
+						return nil, nil, err
+					}
+					as = append(as, vs...)
+					nx.Args = kept
+				}
 				if callee.mode == lmFuel {
 					as = append(as, "fuel")
 					t.usesFuel = true
@@ -517,6 +555,11 @@ var unicodePreds = map[string]string{
 
 func (t *loopTr) ext(e ast.Expr) (string, bool, error) {
 	info := t.cp.info
+	if t.lp.core {
+		if s, ok, err := t.coreExt(e); ok || err != nil {
+			return s, ok, err
+		}
+	}
 	if t.lp.parse {
 		if s, ok, err := t.parseExt(e); ok || err != nil {
 			return s, ok, err
@@ -595,7 +638,17 @@ func (t *loopTr) ext(e ast.Expr) (string, bool, error) {
 			}
 			as = append(as, r)
 		}
-		rest, err := t.args(x.Args)
+		callArgs := x.Args
+		var coreVars []string
+		if t.lp.core && !callee.code.inCode {
+			t.lp.ensure(callee)
+			vs, kept, err := t.coreCallVars(callee, x, x.Args)
+			if err != nil {
+				return fail(err)
+			}
+			coreVars, callArgs = vs, kept
+		}
+		rest, err := t.args(callArgs)
 		if err != nil {
 			return fail(err)
 		}
@@ -640,6 +693,7 @@ func (t *loopTr) ext(e ast.Expr) (string, bool, error) {
 			if callee.prev {
 				as = append(t.prevVars(callee), as...)
 			}
+			as = append(coreVars, as...)
 			if len(as) == 0 {
 				return callee.fi.name, true, nil
 			}
@@ -651,8 +705,11 @@ func (t *loopTr) ext(e ast.Expr) (string, bool, error) {
 		if !callee.fi.sigOK {
 			return fail(t.errAt(e, "call of %s (signature outside the fragment: %s)", callee.fi.name, callee.fi.sigWhy))
 		}
-		if len(as) != len(callee.fi.ptypes) {
+		if len(as) != len(callee.fi.ptypes)-len(callee.fi.dropped) {
 			return fail(t.errAt(e, "call of %s with %d arguments", callee.fi.name, len(as)))
+		}
+		if callee.fi.tparams != nil {
+			return fail(t.errAt(e, "call of the generic function %s, which is outside the fragment: %s", callee.fi.name, callee.skip))
 		}
 		t.lp.extern(callee.fi.name, callee.fi.coqType(), fmt.Sprintf("(*@ var %s %s outside both fragments: %s *)", callee.fi.name, callee.fi.pos, cmt(callee.skip)), indexOf(t.cp.funcs, callee.code))
 		t.use(callee.fi.name)
@@ -768,6 +825,12 @@ func (lp *loopPkg) regexpSource(v *types.Var) string {
 }
 
 func (lp *loopPkg) extern(name, typ, hdr string, ord int) {
+	if lp.inPost {
+		if lp.postExterns[name] == nil {
+			lp.postExterns[name] = &loopExtern{name: name, typ: typ, hdr: hdr, ord: ord}
+		}
+		return
+	}
 	if lp.externs[name] == nil {
 		lp.externs[name] = &loopExtern{name: name, typ: typ, hdr: hdr, ord: ord}
 	}
@@ -865,7 +928,20 @@ func (t *loopTr) lstmts(ss []ast.Stmt, c *lctx) (string, error) {
 				ps = append(ps, p...)
 				vs = append(vs, v)
 			}
+			if t.lp.core {
+				return seq(ps, c.ret(t.withWriters("("+strings.Join(vs, ", ")+")"))), nil
+			}
 			return seq(ps, c.ret("("+strings.Join(vs, ", ")+")")), nil
+		}
+		if t.lp.core && len(x.Results) == 1 && t.fn.fi.nres > 1 {
+			// return f(x) for a call with the same number of results
+			if tup, ok := t.cp.info.TypeOf(x.Results[0]).(*types.Tuple); ok && tup.Len() == t.fn.fi.nres {
+				ps, v, err := t.mexpr(x.Results[0])
+				if err != nil {
+					return "", err
+				}
+				return seq(ps, c.ret(t.withWriters(v))), nil
+			}
 		}
 		if len(x.Results) != 1 || t.fn.fi.nres > 1 {
 			return "", t.errAt(x, "return of %d values", len(x.Results))
@@ -873,6 +949,9 @@ func (t *loopTr) lstmts(ss []ast.Stmt, c *lctx) (string, error) {
 		ps, v, err := t.mexpr(x.Results[0])
 		if err != nil {
 			return "", err
+		}
+		if t.lp.core {
+			v = t.withWriters(v)
 		}
 		return seq(ps, c.ret(v)), nil
 	case *ast.BranchStmt:
@@ -892,6 +971,12 @@ func (t *loopTr) lstmts(ss []ast.Stmt, c *lctx) (string, error) {
 		return "", t.errAt(x, "%s", x.Tok.String())
 	case *ast.DeclStmt:
 		gd, ok := x.Decl.(*ast.GenDecl)
+		if ok && gd.Tok == token.TYPE && t.lp.core {
+			if err := t.localTypes(gd); err != nil {
+				return "", err
+			}
+			return t.lstmts(rest, c)
+		}
 		if !ok || gd.Tok == token.TYPE {
 			return "", t.errAt(x, "local declaration")
 		}
@@ -909,6 +994,10 @@ func (t *loopTr) lstmts(ss []ast.Stmt, c *lctx) (string, error) {
 				if t.lp.parse && len(vs.Values) == 0 && isErrorType(info.ObjectOf(id).Type()) {
 					t.nilState[info.ObjectOf(id)] = 1 // var err error: statically nil
 					rhs = append(rhs, "")
+					continue
+				}
+				if t.lp.core && len(vs.Values) == 0 && t.optPtr[info.ObjectOf(id)] {
+					rhs = append(rhs, t.optNone(info.ObjectOf(id)))
 					continue
 				}
 				if len(vs.Values) == 0 {
@@ -1126,6 +1215,11 @@ func (t *loopTr) lassign(x *ast.AssignStmt, rest []ast.Stmt, c *lctx) (string, e
 		}
 		return t.bind(o, id.Name), nil
 	}
+	if t.lp.core {
+		if s, ok, err := t.coreAssign(x, target, rest, c); ok || err != nil {
+			return s, err
+		}
+	}
 	if t.lp.parse {
 		if s, ok, err := t.parseAssign(x, target, rest, c); ok || err != nil {
 			return s, err
@@ -1285,6 +1379,11 @@ func (t *loopTr) lbranches(at ast.Node, brs []lbranch, els []ast.Stmt, rest []as
 	for _, b := range brs[1:] {
 		if b.cond != nil && t.effectful(b.cond) {
 			laterEffect = true
+		}
+	}
+	if t.lp.core && jump && !laterEffect && !t.pure {
+		if s, ok, err := t.joinBranches(at, brs, els, rest, c, ps, cond); ok || err != nil {
+			return s, err
 		}
 	}
 	if jump || laterEffect {
@@ -1641,6 +1740,13 @@ func (lp *loopPkg) translate(fn *loopFn, pure bool) {
 		}
 	}
 	base.ext = t.ext
+	if lp.core {
+		saved := lp.inPost
+		fn.post = lp.isPost(fn)
+		lp.inPost = fn.post
+		defer func() { lp.inPost = saved }()
+		fn.records, fn.lits = nil, 0
+	}
 	sig := fi.obj.Type().(*types.Signature)
 	var vars []*types.Var
 	if sig.Recv() != nil {
@@ -1650,10 +1756,19 @@ func (lp *loopPkg) translate(fn *loopFn, pure bool) {
 		vars = append(vars, sig.Params().At(i))
 	}
 	var bs []string
+	if lp.core {
+		t.coreInit()
+	}
 	for i, v := range vars {
 		var o types.Object = v
 		if v.Name() == "" || v.Name() == "_" {
 			o = nil
+		}
+		if pre, isDropped := fi.dropped[i]; isDropped {
+			if o != nil {
+				t.abstract[o] = pre
+			}
+			continue
 		}
 		bs = append(bs, fmt.Sprintf("(%s : %s)", t.bind(o, v.Name()), fi.ptypes[i]))
 	}
@@ -1664,6 +1779,9 @@ func (lp *loopPkg) translate(fn *loopFn, pure bool) {
 		return
 	}
 	fn.body = body
+	if lp.core {
+		t.coreFinish(body, strings.Join(bs, " "))
+	}
 	switch {
 	case t.usesFuel:
 		fn.mode = lmFuel
@@ -1685,7 +1803,10 @@ func (lp *loopPkg) render(snap map[string]*snapItem) (string, int, int) {
 	cp := lp.cp
 	var b strings.Builder
 	label, section := "loops", "Loops"
-	if lp.parse {
+	if lp.core {
+		label, section = "core", "Core"
+		b.WriteString(lp.coreHeader())
+	} else if lp.parse {
 		label, section = "parse", "Parse"
 		b.WriteString(lp.parseHeader())
 	} else {
@@ -1701,6 +1822,7 @@ func (lp *loopPkg) render(snap map[string]*snapItem) (string, int, int) {
 		name string
 		text string
 		uses []string
+		post bool // core.go: the definition lives in Section Instances
 	}
 	nodes := map[string]*node{}
 	var order []string
@@ -1712,6 +1834,13 @@ func (lp *loopPkg) render(snap map[string]*snapItem) (string, int, int) {
 		if fn.skip == "" {
 			kind := map[int]string{lmPure: "pure", lmRes: "res", lmFuel: "fuel"}[fn.mode]
 			hdr := fmt.Sprintf("(*@ func %s %s %s calls: %s *)\n", fn.fi.name, fn.fi.pos, kind, strings.Join(fn.uses, " "))
+			if fn.post {
+				hdr = fmt.Sprintf("(*@ func %s %s %s post calls: %s *)\n", fn.fi.name, fn.fi.pos, kind, strings.Join(fn.uses, " "))
+				n.post = true
+			}
+			for _, r := range fn.records {
+				hdr += r + "\n"
+			}
 			if len(fn.ascii) > 0 {
 				hdr += fmt.Sprintf("(* ASCII-only: %s (exact on bytes < 0x80 only) *)\n", strings.Join(fn.ascii, ", "))
 			}
@@ -1731,6 +1860,7 @@ func (lp *loopPkg) render(snap map[string]*snapItem) (string, int, int) {
 			fallbacks = append(fallbacks, fmt.Sprintf("%s:%s.%s (%s)", label, cp.tgt.pkgName(), fn.fi.name, fn.skip))
 			if f := strings.Fields(strings.SplitN(it.text, "\n", 2)[0]); len(f) > 4 {
 				fn.mode = map[string]int{"pure": lmPure, "res": lmRes, "fuel": lmFuel}[f[4]]
+				n.post = len(f) > 5 && f[5] == "post"
 			}
 		}
 		nodes[n.name] = n
@@ -1751,6 +1881,9 @@ func (lp *loopPkg) render(snap map[string]*snapItem) (string, int, int) {
 			it := snap["func "+g]
 			nodes[g] = &node{name: g, uses: it.calls,
 				text: fmt.Sprintf("(* FALLBACK %s: not located in the source as it is now; definition of the snapshot *)\n%s", g, it.text)}
+			if f := strings.Fields(strings.SplitN(it.text, "\n", 2)[0]); len(f) > 5 && f[5] == "post" {
+				nodes[g].post = true
+			}
 			order = append(order, g)
 			fallbacks = append(fallbacks, fmt.Sprintf("%s:%s.%s (not located)", label, cp.tgt.pkgName(), g))
 		}
@@ -1765,16 +1898,29 @@ func (lp *loopPkg) render(snap map[string]*snapItem) (string, int, int) {
 	var vds []vdecl
 	declared := map[string]bool{}
 	needed := map[string]bool{}
+	neededPost := map[string]bool{}
 	for _, name := range order {
 		if n := nodes[name]; n.text != "" {
 			for _, u := range n.uses {
-				needed[u] = true
+				if n.post {
+					neededPost[u] = true
+				} else {
+					needed[u] = true
+				}
 			}
 		}
 	}
+	if lp.core {
+		closeOverTypes(needed, lp.externs)
+		closeOverTypes(neededPost, lp.postExterns)
+	}
 	for name, ex := range lp.externs {
 		if needed[name] {
-			vds = append(vds, vdecl{ex.hdr + "\nVariable " + ex.name + " : " + ex.typ + ".", ex.ord, name})
+			if lp.core {
+				vds = append(vds, vdecl{coreVarText(ex), ex.ord, name})
+			} else {
+				vds = append(vds, vdecl{ex.hdr + "\nVariable " + ex.name + " : " + ex.typ + ".", ex.ord, name})
+			}
 			declared[name] = true
 		}
 	}
@@ -1797,7 +1943,14 @@ func (lp *loopPkg) render(snap map[string]*snapItem) (string, int, int) {
 			continue
 		}
 		if it := snap["var "+u]; it != nil {
-			vds = append(vds, vdecl{"(* FALLBACK variable " + u + ": declaration of the snapshot *)\n" + it.text, 1 << 30, u})
+			ord := 1 << 30
+			if lp.core {
+				ord = 1<<29 + it.line
+				if ex := snapExtern(it); ex != nil {
+					ord = ex.ord
+				}
+			}
+			vds = append(vds, vdecl{"(* FALLBACK variable " + u + ": declaration of the snapshot *)\n" + it.text, ord, u})
 			declared[u] = true
 			continue
 		}
@@ -1847,16 +2000,17 @@ func (lp *loopPkg) render(snap map[string]*snapItem) (string, int, int) {
 		fn.vars = vs
 	}
 	done := map[string]bool{}
+	inPost := false
 	var emit func(name string)
 	emit = func(name string) {
 		if done[name] {
 			return
 		}
-		done[name] = true
 		n := nodes[name]
-		if n == nil || n.text == "" {
+		if n == nil || n.text == "" || n.post != inPost {
 			return
 		}
+		done[name] = true
 		for _, u := range n.uses {
 			emit(u)
 		}
@@ -1866,6 +2020,22 @@ func (lp *loopPkg) render(snap map[string]*snapItem) (string, int, int) {
 		emit(name)
 	}
 	b.WriteString("End " + section + ".\n\n")
+	if lp.core {
+		anyPost := false
+		for _, name := range order {
+			if n := nodes[name]; n.text != "" && n.post {
+				anyPost = true
+			}
+		}
+		if anyPost {
+			b.WriteString(lp.postSection(neededPost, snap, label))
+			inPost = true
+			for _, name := range order {
+				emit(name)
+			}
+			b.WriteString("End Instances.\n\n")
+		}
+	}
 	translated, skipped := 0, 0
 	for _, fn := range lp.fns {
 		if !lp.mine(fn) {
